@@ -481,8 +481,8 @@ Proof.
   assert (T1 : forall x, total x s1 = total x s) by (intros; apply total_cview; reflexivity).
   assert (P2 : wc_ok s2 /\ forall x, (total x s2 <= total x s)%nat).
   { unfold s2. destruct (opt_eqb (leader (nd s1)) (Some from)).
-    - split; auto. intros x. rewrite T1. lia.
-    - destruct (step_le_on_leader_changed s1 W1) as [A B]. split; auto. intros x. rewrite <- T1. apply B. }
+    - split; auto; intros x; rewrite T1; lia.
+    - destruct (step_le_on_leader_changed s1 W1) as [A B]. split; auto; intros x; rewrite <- T1; apply B. }
   destruct P2 as [W2 T2].
   set (s3 := upd (fun n => n <| leader := Some from |>) s2).
   set (s4 := if term (nd s3) <? t then upd (fun n => n <| term := t |> <| voted := None |>) s3 else s3).
@@ -540,8 +540,9 @@ Proof.
   destruct m as [t lli llt|t|t c prev es|t c prev lab off len en|t c p|c req|req okr a b|t next reset success];
     try apply AE_.
   - (* RequestVote *)
-    cbn [nd start_S]. destruct (self n); [|apply K; reflexivity].
-    set (s1 := if term (nd (start_S e n)) <? t then _ else start_S e n).
+    destruct (self (nd (start_S e n))); [|apply K; reflexivity].
+    match goal with |- context [if term (nd (start_S e n)) <? t then ?A else ?B] =>
+      set (s1 := if term (nd (start_S e n)) <? t then A else B) end.
     assert (V1 : view_of s1 = view_of (start_S e n)).
     { unfold s1. destruct (term (nd (start_S e n)) <? t); auto.
       rewrite view_upd by reflexivity. rewrite view_set_role. reflexivity. }
